@@ -136,6 +136,7 @@ def case_op(ctx, terms, times, order, steps, control, use_pauli_order, scalar_ti
         return True          # duplicate words were merged by openfermion: not this generator's business
     tdict = {tuple((q, p) for q, p in w): float(t) for (w, _), t in zip(terms, times)}
     time_arg = float(times[0]) if scalar_time else tdict
+    op_before, time_before = dict(op.terms), (dict(tdict) if not scalar_time else None)
     try:
         if steps == 1 and use_pauli_order:
             po = [(tuple((q, p) for q, p in w), ang_float(g)) for w, g in terms][::-1]
@@ -146,6 +147,16 @@ def case_op(ctx, terms, times, order, steps, control, use_pauli_order, scalar_ti
             circ, phase = trotterize(op, time=time_arg, n_trotter_steps=steps, trotter_order=order, control=control, return_phase=True)
             mterms, mtimes = terms, times
         py = [dump_tangelo_gate(g) for g in circ]
+        # arguments belong to the caller; a second call with the same arguments gives the same circuit
+        if dict(op.terms) != op_before or (time_before is not None and tdict != time_before):
+            ctx.violation("the time-evolution routine modified the operator or the time dictionary it was given", case)
+            return False
+        if len(py) <= 60 and not (steps == 1 and use_pauli_order):
+            circ2, phase2 = trotterize(op, time=time_arg, n_trotter_steps=steps, trotter_order=order, control=control, return_phase=True)
+            if [dump_tangelo_gate(g) for g in circ2] != py or phase2 != phase:
+                ctx.violation("a second call of trotterize with the same arguments returns a different circuit / phase", case)
+                return False
+            ctx.count("op:second-call")
     except Exception as e:
         py, phase = vlib.err_name(e), None
     ctl_model = None if control is None else ([control] if isinstance(control, int) else control)
@@ -208,7 +219,11 @@ def case_fermion(ctx, rng):
     control = rng.choice([None, 4, 0]) if False else rng.choice([None, 4])
     case = {"kind": "fermion", "terms": {str(k): v for k, v in op.terms.items()}, "mapping": opts, "steps": steps, "order": order,
             "time": tval, "dict_time": use_dict, "control": control}
+    f_before = dict(op.terms)
     circ, phase = trotterize(op, time=time, n_trotter_steps=steps, trotter_order=order, mapping_options=opts, control=control, return_phase=True)
+    if dict(op.terms) != f_before:
+        ctx.violation("trotterize modified the fermionic operator it was given", {"kind": "fermion", "terms": {str(k): v for k, v in f_before.items()}})
+        return False
     n = 5
     qop = fermion_to_qubit_mapping(op, mapping, n_spinorbitals=n_so, n_electrons=2, up_then_down=opts["up_then_down"])
     Hs = [np.real(c) * tval * word_matrix(w, n) for w, c in qop.terms.items()]
